@@ -39,6 +39,12 @@ def make_positions(rng, h, origin, layout, N, ndim, ppp):
         nc = int(rng.integers(1, 4))
         centres = rng.random((nc, ndim))
         s = centres[rng.integers(0, nc, size=N)] + rng.normal(0, 0.08, size=(N, ndim))
+    elif layout == "droplet":
+        # a dense drop in its dilute vapour: local densities far above and far below the mean
+        nd = int(0.87 * N)
+        c = rng.random(ndim)
+        s = np.vstack((c + rng.normal(0, 0.05, size=(nd, ndim)), rng.random((N - nd, ndim))))
+        s = s[rng.permutation(N)]
     else:
         raise ValueError(layout)
     s = s - np.floor(s)
@@ -76,6 +82,7 @@ class Config:
         self.ndim, self.N, self.T, self.K = ndim, N, T, K
         self.ppp = np.array(r["ppp"], dtype=int)
         self.exact = bool(r.get("exact"))
+        self.symmetric_only = bool(r.get("exact") and r.get("halftilt"))
         self.frames = []
         if self.exact:
             h, origin, _ = make_exact(rng, ndim, N)
@@ -86,6 +93,20 @@ class Config:
                 pick = rng.permutation(len(sites))[:N]
                 pos = (sites[pick].astype(float) + rng.integers(0, 16, size=ndim)[None, :]) % L[None, :]
                 self.frames.append(pos + origin[None, :])
+            if r.get("halftilt"):
+                # a tilted cell (edges 8, tilt 2: powers of two) with sites on sixteenths of the
+                # cell vectors: pairs sit exactly half a cell vector apart, where the two candidate
+                # images are at different distances.  Which of them a convention picks is not
+                # decided here (symmetric_only): only that i lists j iff j lists i.
+                h = np.diag(np.full(ndim, 8.0))
+                h[1, 0] = 2.0
+                if ndim == 3:
+                    h[2, 1] = 2.0
+                self.frames = []
+                for _t in range(T):
+                    cells = np.stack(np.meshgrid(*[np.arange(16)] * ndim, indexing="ij"), -1).reshape(-1, ndim)
+                    pick = rng.permutation(len(cells))[:N]
+                    self.frames.append((cells[pick].astype(float) / 16.0) @ h + origin[None, :])
         else:
             h, origin = make_cell(rng, ndim, r["cell"])
             base = make_positions(rng, h, origin, r["layout"], N, ndim, self.ppp)
@@ -163,6 +184,12 @@ class Config:
         maxabs = max(float(np.max(np.abs(p))) for p in self.frames)
         # ordering / membership are only decidable beyond the rounding of the stored coordinates
         self.tol = max(1e-7 * self.Lmin, 64.0 * float(np.finfo(self.dtype).eps) * maxabs)
+        self.huge = bool(r.get("huge"))
+        if self.huge:
+            # thousands of distances per particle are never 1e-7 apart everywhere: only the
+            # nearest two dozen are judged (N-nearest lists with N <= 16), and they need to be
+            # separated by no more than the rounding of the computation itself
+            self.tol = 1e-12 * max(self.Lmin, maxabs)
         self.tables = [self._table(np.asarray(p, dtype=np.float64), self.hs[t]) for t, p in enumerate(self.frames)]
 
     def _table(self, pos, h):
@@ -183,6 +210,12 @@ class Config:
         if self.exact:
             return True
         tol = self.tol
+        if self.huge:
+            for D, _smax in self.tables:
+                near = np.sort(np.partition(D, 25, axis=1)[:, :26], axis=1)
+                if np.min(np.diff(near, axis=1)) < tol:
+                    return False
+            return True
         for D, smax in self.tables:
             if smax > 0.5 - max(1e-9, tol / self.Lmin):
                 return False
